@@ -98,7 +98,8 @@ def scatter(spec, rng, nmod=None, nsplit=None):
     if spec.ni and rng.random() < 0.3:
         pick = lambda: rng.randrange(spec.ni)
         mem = {"mod": rng.randrange(nmod), "w": 4, "depth": rng.choice([2, 3, 4]), "wa": pick(), "wd": pick(), "we": pick(),
-               "ra": pick(), "transparent": rng.random() < 0.5, "init": [rng.getrandbits(4) for _ in range(4)]}
+               "ra": pick(), "transparent": rng.random() < 0.5, "init": [rng.getrandbits(4) for _ in range(4)],
+               "sibling": rng.choice([0, 0, 1, 2])}
     return {"spec": spec.d, "tree": tree, "anon": anon, "place": place, "splits": splits, "mem": mem}
 
 
@@ -162,6 +163,13 @@ def build(design):
     d.mem = None
     if me:
         from amaranth.lib.memory import Memory
+        if me.get("sibling"):
+            # another memory with its own write ports, elaborated in the same module before this one
+            aux = Memory(shape=2, depth=2, init=[1, 2])
+            mods[me["mod"]].submodules.aux = aux
+            for k in range(me["sibling"]):
+                awp = aux.write_port()
+                mods[me["mod"]].d.comb += [awp.addr.eq(b0.sigs[me["wa"]][:1]), awp.data.eq(b0.sigs[me["wd"]][:2] + k), awp.en.eq(b0.sigs[me["we"]][:1])]
         mem = Memory(shape=me["w"], depth=me["depth"], init=me["init"][:me["depth"]])
         mods[me["mod"]].submodules.mem = mem
         wp = mem.write_port()
